@@ -6,6 +6,7 @@ A lane is one run of the harness binary `vh` (or of a helper script) that writes
 """
 
 REL = {"name": "native-release", "profile": "release"}
+DBG = {"name": "native-debug", "profile": "debug"}
 
 LANES = {
     "C01": [dict(REL)],
@@ -13,6 +14,7 @@ LANES = {
     "C03": [dict(REL)],
     "C04": [dict(REL)],
     "C19": [dict(REL)],
+    "C15": [dict(REL), dict(DBG)],
 }
 
 LEVELS = {
